@@ -167,8 +167,18 @@ class History:
         desc = "%s.fill(%s, %r)" % (m.tag, _short(rec), S.jsonable(w))
         self.log.append(desc)
         before = self.texts()
+        given = rec
+        if self.profile.get("retype") and self.rng.random() < 0.3:
+            # the same numbers as numpy / Python integers, numpy float64, float32 NaN ...: what a quantity returns
+            # when the caller iterates over typed columns; the ghost multiset keeps the plain values
+            given = S.retype_record(self.rng, rec)
+            types = sorted({type(v).__name__ for f, v in given.items() if f in S.NUMF + S.SELF})
+            desc += " [typed: %s]" % ",".join(types)
+            self.log[-1] = desc
+            for t in types:
+                self.count("fill_value_type:" + t)
         try:
-            m.obj.fill(rec, w)
+            m.obj.fill(given, w)
         except Exception as e:  # noqa: BLE001
             self.fail("fill raised %s: %s" % (type(e).__name__, str(e)[:200]), op=desc)
             return
